@@ -452,7 +452,7 @@ Close ==
                   EvRec([t |-> "RuleF", f |-> Cfg.rules[SetToSeq(openR)[i]].f, r |-> SetToSeq(openR)[i]])]
          ff == [i \in DOMAIN SetToSeq(openF) |-> EvRec([t |-> "FeatF", f |-> SetToSeq(openF)[i]])]
      IN o' = Feed(o, rr \o ff \o <<EvRec([t |-> "Finished"]), Rec("hook_restored", <<>>),
-                                   Rec("end", <<>>),
+                                   Rec("end", [sched_diverged |-> FALSE]),
                                    Rec("post", [sentinel_calls |-> 0, hook_restored |-> TRUE, hung |-> FALSE])>>)
   /\ epc' = "done"
   /\ UNCHANGED <<pPos, pDone, qS, qC, slots, batch, run, serialStarted, finQ, cntF, cntR, now, nid, nfail, logChan, nlogs>>
